@@ -178,6 +178,6 @@ Definition judge_order (c : order_case) : Z :=
   | (id0, k0, _) :: r =>
       if negb (leaf_kind_ok l k0) then 7
       else if negb (forallb (fun o => fst (fst o) =? id0) r) then 1
-      else if negb (forallb (fun o => snd o) obs) then 2
+      else if negb (String.eqb m "reduce") && negb (forallb (fun o => snd o) obs) then 2   (* the VALUE of a reduction is C03's subject *)
       else 0
   end.
